@@ -37,7 +37,7 @@ def log(*a):
 	print(*a, file=sys.stderr, flush=True)
 
 
-def dump_mir(repo, build):
+def dump_mir(repo, build, features=None):
 	"""MIR of the library crate of `repo`, compiled now (fresh target dir: cargo would not re-run rustc otherwise)"""
 	tdir = os.path.join(build, "mir-target")
 	shutil.rmtree(tdir, ignore_errors=True)
@@ -46,7 +46,7 @@ def dump_mir(repo, build):
 	env["CARGO_TARGET_DIR"] = tdir
 	env.pop("RUSTFLAGS", None)
 	t0 = time.time()
-	p = subprocess.run(["cargo", "+nightly", "rustc", "--offline", "--lib", "--", "-Zunpretty=mir", "-C", "debug-assertions=off"],
+	p = subprocess.run(["cargo", "+nightly", "rustc", "--offline", "--lib"] + (["--features", features] if features else []) + ["--", "-Zunpretty=mir", "-C", "debug-assertions=off"],
 	                   cwd=repo, env=env, stdout=subprocess.PIPE, stderr=subprocess.PIPE, timeout=900)
 	shutil.rmtree(tdir, ignore_errors=True)
 	if p.returncode != 0:
@@ -166,17 +166,16 @@ def explore(prog, repo, n, alphabet, budget, concrete=None, prefix=""):
 		if res.variant == "Ok":
 			accepted += 1
 		for label, detail, s in driver.compare(models, fin, res, parser):
+			# a few counter-examples PER LABEL (a violation of one property must not hide another's)
+			if sum(1 for v in violations if v["label"] == label) >= 3:
+				continue
 			cex = chars if concrete is not None else [ord(c) for c in prefix] + sym.model(s)
 			violations.append(dict(label=label, detail=detail, chars=cex))
-			if len(violations) >= 20:
-				break
-		if len(violations) >= 20:
-			break
 		if budget and time.time() - t0 > budget:
 			timed_out = True
 			break
 	total = (sym.alphabet_size() ** n) if concrete is None else 1
-	complete = (concrete is not None) or timed_out or bool(violations) or covered == total
+	complete = (concrete is not None) or timed_out or covered == total
 	if not complete:
 		raise MirError("path partition incomplete: paths cover %d of %d inputs" % (covered, total))
 	return dict(n=n, prefix=prefix, alphabet=alphabet, inputs_covered=str(covered), inputs_total=str(total), paths=paths, accepted_paths=accepted, forks=ip.stats["forks"], mir_steps=ip.stats["steps"],
@@ -381,13 +380,13 @@ def main():
 			vs = r.pop("violations")
 			out["runs"].append(r)
 			for v in vs:
+				if sum(1 for w in out["violations"] if w["label"] == v["label"]) >= 3:
+					continue
 				if native is None:
 					native = build_native(a.repo, a.build)
 				v["n"] = n
 				v["native"] = replay(native, v["chars"])
 				out["violations"].append(v)
-			if out["violations"]:
-				break
 		out["ok"] = True
 	except MirError as e:
 		out["error"] = str(e)
